@@ -135,13 +135,15 @@ theorem growthMulti_zero_iff (mc R dG Vm E f γ : α) (hmc : 0 < mc) (hR : 0 < R
 
 /-! ### what the KWN model computes (`_singleGrowthMulti`, traced through the real `particleGibbs` and growth law)
 
-`growthMultiKWN kf mc R dGv Vm E f γ` takes the RECORDED volumetric driving force `dGv = volDG dG Vm E`.
+`growthMultiKWN kf mc R dGv Vm Va E f γ` takes the RECORDED volumetric driving force `dGv = volDG dG Vm E`;
+`Vm` is the molar volume of the precipitate, `Va` that of the matrix, which must not (and does not) enter: the
+theorems hold for every `Va`.
 Before the repair recorded in known_findings.txt the model handed `dGv·Vm` to the growth law although the
 Gibbs–Thomson term of `particleGibbs` contains the strain energy as well, so `E` was subtracted twice
 (`growthMultiKWN_before`); the regenerated definition now adds the strain energy back. -/
 
 /-- the regenerated KWN growth rate, factored; `kf` = kinetic shape factor -/
-theorem growthMultiKWN_factored (kf mc R dG Vm E f γ : α) (hVm : Vm ≠ 0) (hR : R ≠ 0) :
+theorem growthMultiKWN_factored (kf mc R dG Vm Va E f γ : α) (hVm : Vm ≠ 0) (hR : R ≠ 0) :
     growthMultiKWN kf mc R (volDG dG Vm E) Vm Va E f γ
       = kf * mc * Vm / (R * R) * (volDG dG Vm E * R - 2 * f * γ) := by
   simp only [growthMultiKWN, volDG]
@@ -150,31 +152,31 @@ theorem growthMultiKWN_factored (kf mc R dG Vm E f γ : α) (hVm : Vm ≠ 0) (hR
 
 /-- **growth sign in the KWN model, multicomponent**: with `mc > 0`, kinetic factor `> 0`, positive volumetric
 driving force: classes above the (unclamped) critical radius grow … -/
-theorem kwn_multi_pos_iff (kf mc R dG Vm E f γ : α) (hkf : 0 < kf) (hmc : 0 < mc) (hR : 0 < R) (hVm : 0 < Vm)
+theorem kwn_multi_pos_iff (kf mc R dG Vm Va E f γ : α) (hkf : 0 < kf) (hmc : 0 < mc) (hR : 0 < R) (hVm : 0 < Vm)
     (hd : 0 < volDG dG Vm E) :
     0 < growthMultiKWN kf mc R (volDG dG Vm E) Vm Va E f γ ↔ rcritProposal f γ (volDG dG Vm E) < R := by
-  rw [growthMultiKWN_factored kf mc R dG Vm E f γ hVm.ne' hR.ne',
+  rw [growthMultiKWN_factored kf mc R dG Vm Va E f γ hVm.ne' hR.ne',
     pos_mul_pos_iff (by positivity), crossing_pos_iff f γ _ R hd]
 
 /-- … classes below shrink … -/
-theorem kwn_multi_neg_iff (kf mc R dG Vm E f γ : α) (hkf : 0 < kf) (hmc : 0 < mc) (hR : 0 < R) (hVm : 0 < Vm)
+theorem kwn_multi_neg_iff (kf mc R dG Vm Va E f γ : α) (hkf : 0 < kf) (hmc : 0 < mc) (hR : 0 < R) (hVm : 0 < Vm)
     (hd : 0 < volDG dG Vm E) :
     growthMultiKWN kf mc R (volDG dG Vm E) Vm Va E f γ < 0 ↔ R < rcritProposal f γ (volDG dG Vm E) := by
-  rw [growthMultiKWN_factored kf mc R dG Vm E f γ hVm.ne' hR.ne',
+  rw [growthMultiKWN_factored kf mc R dG Vm Va E f γ hVm.ne' hR.ne',
     pos_mul_neg_iff (by positivity), crossing_neg_iff f γ _ R hd]
 
 /-- … and the growth rate vanishes exactly at the critical radius. -/
-theorem kwn_multi_zero_iff (kf mc R dG Vm E f γ : α) (hkf : 0 < kf) (hmc : 0 < mc) (hR : 0 < R) (hVm : 0 < Vm)
+theorem kwn_multi_zero_iff (kf mc R dG Vm Va E f γ : α) (hkf : 0 < kf) (hmc : 0 < mc) (hR : 0 < R) (hVm : 0 < Vm)
     (hd : 0 < volDG dG Vm E) :
     growthMultiKWN kf mc R (volDG dG Vm E) Vm Va E f γ = 0 ↔ R = rcritProposal f γ (volDG dG Vm E) := by
-  rw [growthMultiKWN_factored kf mc R dG Vm E f γ hVm.ne' hR.ne',
+  rw [growthMultiKWN_factored kf mc R dG Vm Va E f γ hVm.ne' hR.ne',
     pos_mul_eq_zero_iff (by positivity), crossing_zero_iff f γ _ R hd]
 
 /-- **the kinetic shape factor does not change the sign**: the KWN growth rate is `kf` times the growth law
 evaluated with the chemical driving force -/
-theorem kwn_multi_eq_kf_mul (kf mc R dG Vm E f γ : α) (hVm : Vm ≠ 0) (hR : R ≠ 0) :
+theorem kwn_multi_eq_kf_mul (kf mc R dG Vm Va E f γ : α) (hVm : Vm ≠ 0) (hR : R ≠ 0) :
     growthMultiKWN kf mc R (volDG dG Vm E) Vm Va E f γ = kf * growthMulti mc R dG (gExtra Vm E f γ R) := by
-  rw [growthMultiKWN_factored kf mc R dG Vm E f γ hVm hR, growthMulti_factored mc R dG Vm E f γ hVm hR]
+  rw [growthMultiKWN_factored kf mc R dG Vm Va E f γ hVm hR, growthMulti_factored mc R dG Vm E f γ hVm hR]
   ring
 
 theorem kineticFactor_keeps_sign (kf g : α) (hkf : 0 < kf) :
@@ -262,30 +264,30 @@ theorem rcritUsed_ge_Rmin (f γ dGv Rmin : α) (hd : 0 < dGv) : Rmin ≤ rcritUs
 
 /-- **unclamped case = the property's claim**: if the proposal is not below `Rmin`, growth changes sign exactly
 at the recorded critical radius -/
-theorem kwn_multi_sign_at_recorded_Rcrit (kf mc R dG Vm E f γ Rmin : α) (hkf : 0 < kf) (hmc : 0 < mc) (hR : 0 < R)
+theorem kwn_multi_sign_at_recorded_Rcrit (kf mc R dG Vm Va E f γ Rmin : α) (hkf : 0 < kf) (hmc : 0 < mc) (hR : 0 < R)
     (hVm : 0 < Vm) (hd : 0 < volDG dG Vm E) (hun : Rmin ≤ rcritProposal f γ (volDG dG Vm E)) :
     (0 < growthMultiKWN kf mc R (volDG dG Vm E) Vm Va E f γ ↔ rcritUsed f γ (volDG dG Vm E) Rmin < R) ∧
     (growthMultiKWN kf mc R (volDG dG Vm E) Vm Va E f γ < 0 ↔ R < rcritUsed f γ (volDG dG Vm E) Rmin) := by
   rw [rcritUsed_unclamped f γ _ Rmin hd hun]
-  exact ⟨kwn_multi_pos_iff kf mc R dG Vm E f γ hkf hmc hR hVm hd, kwn_multi_neg_iff kf mc R dG Vm E f γ hkf hmc hR hVm hd⟩
+  exact ⟨kwn_multi_pos_iff kf mc R dG Vm Va E f γ hkf hmc hR hVm hd, kwn_multi_neg_iff kf mc R dG Vm Va E f γ hkf hmc hR hVm hd⟩
 
 /-- **clamp, explicit**: if the critical radius was raised to `Rmin`, the classes between `2fγ/dG_vol` and `Rmin`
 are BELOW the recorded critical radius and still grow (the property's claim concerns the unclamped case) -/
-theorem clamped_classes_between_grow (kf mc R dG Vm E f γ Rmin : α) (hkf : 0 < kf) (hmc : 0 < mc) (hR : 0 < R)
+theorem clamped_classes_between_grow (kf mc R dG Vm Va E f γ Rmin : α) (hkf : 0 < kf) (hmc : 0 < mc) (hR : 0 < R)
     (hVm : 0 < Vm) (hd : 0 < volDG dG Vm E) (h1 : rcritProposal f γ (volDG dG Vm E) < R) (h2 : R < Rmin) :
     R < rcritUsed f γ (volDG dG Vm E) Rmin ∧ 0 < growthMultiKWN kf mc R (volDG dG Vm E) Vm Va E f γ := by
   rw [rcritUsed_clamped f γ _ Rmin hd (lt_trans h1 h2)]
-  exact ⟨h2, (kwn_multi_pos_iff kf mc R dG Vm E f γ hkf hmc hR hVm hd).mpr h1⟩
+  exact ⟨h2, (kwn_multi_pos_iff kf mc R dG Vm Va E f γ hkf hmc hR hVm hd).mpr h1⟩
 
 /-- concrete witness of the clamped situation: `2fγ/dG_vol = 1`, `Rmin = 3`, the class of radius 2 grows although
 it is below the recorded critical radius 3 -/
 theorem clamp_witness :
     rcritUsed (1 : ℚ) 1 (volDG 2 1 0) 3 = 3 ∧ (2 : ℚ) < rcritUsed (1 : ℚ) 1 (volDG 2 1 0) 3 ∧
-    0 < growthMultiKWN (1 : ℚ) 1 2 (volDG 2 1 0) 1 0 1 1 := by
+    0 < growthMultiKWN (1 : ℚ) 1 2 (volDG 2 1 0) 1 7 0 1 1 := by
   refine ⟨?_, ?_, ?_⟩
   · simp only [rcritUsed, rcritProposal, volDG]; norm_num
   · simp only [rcritUsed, rcritProposal, volDG]; norm_num
-  · exact (clamped_classes_between_grow (1 : ℚ) 1 2 2 1 0 1 1 3 one_pos one_pos two_pos one_pos
+  · exact (clamped_classes_between_grow (1 : ℚ) 1 2 2 1 7 0 1 1 3 one_pos one_pos two_pos one_pos
       (by simp only [volDG]; norm_num) (by simp only [rcritProposal, volDG]; norm_num) (by norm_num)).2
 
 /-! ### binary growth law: sign of the supersaturation -/
@@ -797,9 +799,9 @@ example : gExtra (2 : ℚ) 1 3 (1 / 2) (rcritProposal 3 (1 / 2) (volDG 10 2 1)) 
 example : (0 : ℚ) < volDG 10 2 1 := by simp only [volDG]; norm_num
 
 /-- multicomponent sign hypotheses are satisfiable and both sides of the critical radius occur -/
-example : 0 < growthMultiKWN (1 : ℚ) 1 1 (volDG 10 2 1) 2 1 3 (1 / 2)
-    ∧ growthMultiKWN (1 : ℚ) 1 (1 / 2) (volDG 10 2 1) 2 1 3 (1 / 2) < 0
-    ∧ growthMultiKWN (1 : ℚ) 1 (3 / 4) (volDG 10 2 1) 2 1 3 (1 / 2) = 0 := by
+example : 0 < growthMultiKWN (1 : ℚ) 1 1 (volDG 10 2 1) 2 5 1 3 (1 / 2)
+    ∧ growthMultiKWN (1 : ℚ) 1 (1 / 2) (volDG 10 2 1) 2 5 1 3 (1 / 2) < 0
+    ∧ growthMultiKWN (1 : ℚ) 1 (3 / 4) (volDG 10 2 1) 2 5 1 3 (1 / 2) = 0 := by
   simp only [growthMultiKWN, volDG]; norm_num
 
 /-- binary sign hypotheses: Vα = Vβ, xβ = 1/4, xα = 1/100: denominator positive -/
